@@ -14,6 +14,9 @@ import Lattigo.Model.Codec
     wt   <ty> <val>                → 1/0 well-typed
     dec  <ty> <hex>                → `ok <consumed> <val>` | `err`
     decc <ty> <sizes> <hex>        → same through the chunked reader (chunk sizes cycle)
+    decs <ty> <sizes> <hex>        → same through `io.ReadFull` loops over a short-count transport
+    marshal <ty> <val>             → hex of `MarshalBinary` (buffer of `BinarySize` bytes) | err
+    fields <ty> <gotype>           → sorted Go field paths the model declares for the type
     many <ty> <k> <hex>            → `ok <consumed> [v1,…,vk]` | `err`  (back-to-back)
     into <ty> <recvval> <hex>      → `ok <consumed> <val>` | `err`  (Go `ReadFrom` into a
                                       receiver holding `recvval`; the receiver-leak model)
@@ -140,6 +143,23 @@ def handle (toks : List String) : String :=
     | some f, some szs, some bs =>
       showDec bs.length ((decC f (chunk szs bs)).map fun p => (p.1, p.2.flatten))
     | _, _, _ => badOp
+  | ["decs", ty, sizes, h] =>
+    match fmtOf ty, parseVec? sizes, parseHex? h with
+    | some f, some szs, some bs =>
+      showDec bs.length ((decS f (chunk szs bs)).map fun p => (p.1, p.2.flatten))
+    | _, _, _ => badOp
+  | ["marshal", ty, v] =>
+    match fmtOf ty, parseVal? v with
+    | some f, some v =>
+      match marshalBinary f v with
+      | some bs => showHex bs
+      | none => "err"
+    | _, _ => badOp
+  | ["fields", ty, g] =>
+    match goFields g with
+    | some (ty', ser, der) =>
+      if ty' == ty then ",".intercalate ((ser ++ der).toArray.qsort (· < ·)).toList else badOp
+    | none => badOp
   | ["many", ty, k, h] =>
     match fmtOf ty, parseNat? k, parseHex? h with
     | some f, some k, some bs =>
